@@ -28,6 +28,12 @@ def make_problem(r, degenerate=False):
     w = r.uniform(0.2, 1, size=C)
     init = {"weights": w / w.sum(), "means": centres + r.normal(size=(C, d)) * 1.0,
             "variances": r.uniform(0.5, 3, size=(C, d))}
+    if not degenerate and r.rand() < 0.4:
+        # another unit of measurement: tightly concentrated data have positive log-likelihoods
+        sc = 10.0 ** r.uniform(-2.5, 0.5)
+        X = X * sc
+        init["means"] = init["means"] * sc
+        init["variances"] = init["variances"] * sc ** 2
     return X, init
 
 
